@@ -343,6 +343,17 @@ func relOnTrue(cond ssa.Value, L, R VP, bf []BoolFn) (Rel, bool) {
 				return r, true
 			}
 		}
+		// a.After(b) on tickets: a > b (Ticket.After is checked to be Compare > 0 by K.compare)
+		if o := prog.CallObj(c); o != nil && o.Name() == "After" && isTicketMethod(o) {
+			if a, b, ok := twoOperands(c); ok {
+				if L.match(a) && R.match(b) {
+					return GT, true
+				}
+				if L.match(b) && R.match(a) {
+					return LT, true
+				}
+			}
+		}
 	}
 	// a boolean value used directly as the condition: "L is true"
 	if R.Desc == vpTrue.Desc && L.match(cond) {
@@ -725,4 +736,17 @@ func sameAccessPath(a, b ssa.Value) bool {
 		}
 	}
 	return false
+}
+
+func isTicketMethod(o *types.Func) bool {
+	sig, ok := o.Type().(*types.Signature)
+	if !ok || sig.Recv() == nil {
+		return false
+	}
+	t := sig.Recv().Type()
+	if p, ok := t.(*types.Pointer); ok {
+		t = p.Elem()
+	}
+	n, ok := t.(*types.Named)
+	return ok && n.Obj().Name() == "Ticket" && n.Obj().Pkg() != nil && strings.HasSuffix(n.Obj().Pkg().Path(), "/pkg/document/time")
 }
